@@ -122,7 +122,7 @@ def gen(rng, tier):
     work = os.path.join(cvbuild.CACHE, "c03-scratch")
     os.makedirs(work, exist_ok=True)
     cases = []
-    reps = 1 if tier == "quick" else 8
+    reps = 2 if tier == "quick" else 8          # (two passes: every family is stopped once early / late and once in mid-run, once in each state format)
     idx = 0
     for rep_ in range(reps):
         for fam, (conf, bias, opt) in sorted(fams.items()):
@@ -134,7 +134,7 @@ def gen(rng, tier):
                 K = rng.randint(0, N - 1)
             if rep_ % 4 == 1:
                 K = 6 * rng.randint(0, (N - 1) // 6)          # on the schedules (multiples of 2, 3, 6)
-            binfmt = (idx % 2 == 1)
+            binfmt = ((idx + rep_) % 2 == 1) if len(fams) % 2 == 0 else (idx % 2 == 1)
             idx += 1
             T = traj(rng, N + 1, ncv, opt.get("wide"))
             pfx = os.path.join(work, "s%d" % idx)
